@@ -93,14 +93,25 @@ def run(prog, rep):
                         if isinstance(a, ast.Name) and a.id in fmt_of[h.qualname] and k0 + off < len(x.params):
                             fmt_of[x.qualname].add(x.params[k0 + off])
     e_calls = []
+    key_of = dict((h.qualname, set()) for h in se_funcs)
     for h in se_funcs:
-        fmt_vars = fmt_of[h.qualname]
-        key_vars = set()
         for n in walk_no_nested(h.node):
             if isinstance(n, ast.For) and isinstance(n.target, ast.Name):
                 it = unparse(n.iter)
-                if any(it == "%s.arguments_keys" % v for v in fmt_vars):
-                    key_vars.add(n.target.id)
+                if any(it == "%s.arguments_keys" % v for v in fmt_of[h.qualname]):
+                    key_of[h.qualname].add(n.target.id)
+    # a helper that is handed the key of the table loop: its parameter is a key variable as well
+    for _ in range(2):
+        for h in se_funcs:
+            for c in calls_in(h.node):
+                for x in [x for x in se_funcs if x is not h and unparse(c.func).split(".")[-1] == x.name]:
+                    off = 0 if (x.kind == "static" or not x.has_self) else 1
+                    for k0, a in enumerate(c.args):
+                        if isinstance(a, ast.Name) and a.id in key_of[h.qualname] and k0 + off < len(x.params):
+                            key_of[x.qualname].add(x.params[k0 + off])
+    for h in se_funcs:
+        fmt_vars = fmt_of[h.qualname]
+        key_vars = key_of[h.qualname]
         for c in calls_in(h.node):
             if call_name(c) in ("E", "ET.Element", "ET.SubElement"):
                 e_calls.append((h, c, fmt_vars, key_vars))
